@@ -291,6 +291,36 @@ TrLeapQuery == IsOp("leap_query") /\ KeepD /\ UNCHANGED <<e, eout>> /\ e.ts \in 
         /\ Has(E.iers_i32, "v")
         /\ B!Mul(B!FromInt(E.iers_i32.v), Ur[4]) = (IF Has(E.builtin, "some") THEN B!Mul(F64Int(E.builtin.some), Ur[4]) ELSE B!Zero)
 
+(* A provider loaded from an IERS-format file (C06, the configurations): the file is logged line by line, *)
+(* spec/LeapFile.tla says which lines are entries; a file all of whose data lines are well formed and in    *)
+(* range (u64 seconds, u8 offset) loads and lists exactly those entries, in order, all announced by IERS;  *)
+(* a file with a line that is certainly not an entry is an error, never a shorter table.                    *)
+DigitsVal(ds) == B!Mk(FALSE, B!MagOfDigits(ds))
+TrLeapFile == IsOp("leap_file") /\ KeepD /\ UNCHANGED <<e, eout>> /\
+      LET ok  == Has(E.res, "v")
+          en  == X!EntriesOf(E.lines)
+          inr == \A i \in 1..Len(en) : B!Lt(DigitsVal(en[i][1]), B!Pow2(53)) /\ B!Le(DigitsVal(en[i][2]), B!FromInt(255))
+          big == \E i \in 1..Len(en) : B!Lt(U64MAX, DigitsVal(en[i][1])) \/ B!Lt(B!FromInt(255), DigitsVal(en[i][2]))
+      IN  /\ (ok \/ Has(E.res, "err"))
+          /\ (X!SomeNo(E.lines) => ~ok)
+          /\ ((X!AllYes(E.lines) /\ big) => ~ok)
+          /\ ((X!AllYes(E.lines) /\ inr) =>
+                 /\ ok /\ Len(E.res.v) = Len(en)
+                 /\ \A i \in 1..Len(en) :
+                      /\ F64IsInt(E.res.v[i].t) /\ F64Int(E.res.v[i].t) = DigitsVal(en[i][1])
+                      /\ F64IsInt(E.res.v[i].d) /\ F64Int(E.res.v[i].d) = DigitsVal(en[i][2])
+                      /\ E.res.v[i].iers)
+(* leap_seconds_with(true, provider) for a provider holding the logged table: the offset of the last entry   *)
+(* that is not after the instant (read at the TAI count or at the UTC time, as for the built-in table)      *)
+RECURSIVE OffsetInFrom(_, _, _)
+OffsetInFrom(tab, t, i) == IF i = 0 THEN -1
+                           ELSE IF B!Le(B!Mul(Big(tab[i].t), Ur[4]), t) THEN tab[i].d ELSE OffsetInFrom(tab, t, i - 1)
+TrLeapWith == IsOp("leap_with") /\ KeepD /\ UNCHANGED <<e, eout>> /\ e.ts \in X!Uniform \cup {X!UTC} /\
+      LET t == X!Instant(e)
+          S == {OffsetInFrom(E.tab, x, Len(E.tab)) : x \in {t} \cup X!TaiToUtcSet(t)}
+      IN  \/ (Has(E.res, "none") /\ -1 \in S)
+          \/ (Has(E.res, "some") /\ F64IsInt(E.res.some) /\ ~E.res.some.neg /\ B!ToInt(F64Int(E.res.some)) \in S)
+
 (* sorted sweep TAI -> UTC: each item admissible, and never earlier than its predecessor (C06) *)
 TrSweepUtc == IsOp("sweep_utc") /\ KeepD /\ UNCHANGED <<e, eout>> /\ IsEp(E.res) /\ E.res.ts = X!UTC
               /\ DV(E.res) \in X!TaiToUtcSet(DV(E.tai))
@@ -338,7 +368,7 @@ Dev_F11 ==
   /\ Known("F11")
 
 EpochNext1 ==
-  \/ TrRefConst \/ TrOffsetConsts \/ TrLeapDump \/ TrLeapNaif \/ TrLeapQuery
+  \/ TrRefConst \/ TrOffsetConsts \/ TrLeapDump \/ TrLeapNaif \/ TrLeapQuery \/ TrLeapFile \/ TrLeapWith
   \/ TrELoad \/ TrEAdd \/ TrESub \/ TrEAddU \/ TrESubU \/ TrEAddF \/ TrESubE
   \/ TrToScale \/ TrToDur \/ TrECmp \/ TrERange \/ TrESort \/ TrEFloor \/ TrECeil \/ TrERound
   \/ TrFromGreg \/ TrIsValid \/ TrToGreg \/ TrWeekday \/ TrNext \/ TrPrev
